@@ -4,6 +4,7 @@
   indices — also for documents that are themselves results of `unified()`, `flattened()`, `update` or `add_bundle`.
 -/
 import Prov.Props.C08I
+import Prov.Props.C09G
 
 namespace Prov.C09
 open Prov Prov.Heap Prov.C05 Prov.C04 Prov.C08
@@ -23,5 +24,27 @@ theorem c09_flattened_reach {h : Heap} (hr : Reach h) (d : Nat) (hb : (h.cont d)
     · exact hall d r h1
     · obtain ⟨p, _, hp⟩ := List.mem_flatMap.mp h1
       exact hall p.2 r hp)
+
+theorem srcOk_reach {h : Heap} (hr : Reach h) (c : Nat) : SrcOk h (h.cont c).records := by
+  have g := (reach_good2 hr).good
+  exact fun r hm => ⟨g.wf.inRange c r hm, g.storedRec r (g.wf.inRange c r hm)⟩
+
+/-- **`ProvBundle.update(other)` in any reachable state**: `other` a bundle or a document without bundles is appended as `==`
+    copies, in order, to exactly the target; nothing else is written -/
+theorem c09_updateBundle_reach {h : Heap} (hr : Reach h) (t o : Nat) (ht : t < h.conts.size)
+    (ho : ((h.cont o).isDoc && !(h.cont o).bundles.isEmpty) = false) :
+    ∃ h' news, h.updateBundle t o = (h', none) ∧ Appended h h' t (h.cont o).records news :=
+  c09_updateBundle_heap h t o ht (reach_good2 hr).good.allInv1 ho (srcOk_reach hr o)
+
+/-- **`add_bundle` of a bundle-free document in any reachable state** (the conclusion of `c09_addBundle_attaches_document`) -/
+theorem c09_addBundle_document_reach {h : Heap} (hr : Reach h) (d b : Nat) (idArg : NameArg) (nsOrder : List Ns)
+    (hd : d < h.conts.size) (hb : (h.cont b).isDoc = true) (hbs : (h.cont b).bundles.isEmpty = true)
+    (h' : Heap) (hres : h.addBundle d b idArg nsOrder = (h', none)) :
+    ∃ q news, (h'.cont d).bundles = (h.cont d).bundles ++ [(q, h.conts.size)] ∧ (h'.cont d).records = (h.cont d).records ∧
+      (bundlesGet (h.cont d).bundles q).isSome = false ∧
+      (h'.cont h.conts.size).records = news ∧ (h'.cont h.conts.size).id = some q ∧ news.length = (h.cont b).records.length ∧
+      (∀ p ∈ (h.cont b).records.zip news, recEq (h.recCell p.1).r (h'.recCell p.2).r = true) ∧
+      (∀ r, r < h.recs.size → h'.recCell r = h.recCell r) :=
+  c09_addBundle_attaches_document h d b idArg nsOrder hd (reach_good2 hr).good.allInv1 hb hbs (srcOk_reach hr b) h' hres
 
 end Prov.C09
